@@ -8,6 +8,7 @@
  * program file:
  *   cfg <max_nr_buckets> <init_size> <auto> <acct> <ncpus> <shift> <mm>    mm: order | chunk | mmap
  *   pre <key>...                 resident keys, added sequentially before the run (never removed by the scenario)
+ *   prex <key>...                keys added before the run that the scenario removes
  *   counters <count> <add0> <del0> [<add1> <del1> ...]     preset ht->count and the split counters (see below)
  *   thread <name> <cpu>
  *   resize <n|BIG>  |  add <key>  |  del <key>  |  lookup <key>  |  destroy
@@ -29,7 +30,18 @@
 #define _LGPL_SOURCE
 #include "vrt_redirect.h"
 #include <stdarg.h>
+#include <stdbool.h>
 #include "absrcu.h"
+#include <urcu/arch.h>
+/* pthread_create() is a system call (clone): a full fence for the caller.  The runtime's vrt_pthread_create() does not
+ * drain the software store buffer, so the fence is made explicit here (hooked cmm_smp_mb: scheduling point + drain). */
+static int drv_pthread_create(pthread_t *tid, const pthread_attr_t *attr, void *(*fn)(void *), void *arg)
+{
+	cmm_smp_mb();
+	return vrt_pthread_create(tid, attr, fn, arg);
+}
+#undef pthread_create
+#define pthread_create drv_pthread_create
 #include REPO_SRC(workqueue.c)
 #include REPO_SRC(rculfhash.c)
 
@@ -135,13 +147,13 @@ static NS struct cds_lfht *rec_alloc_cds_lfht(unsigned long min_nr_alloc_buckets
 
 /* ------------------------------------------------------------------ scenario */
 #define MAXOPS 12
-#define MAXK 16
+#define MAXK 32
 struct op { char kind[8]; long n; };
 struct prog { char name[16]; int cpu; int nops; struct op ops[MAXOPS]; int fin; };
 static struct prog P[8]; static int np;
 struct mynode { struct cds_lfht_node node; int key; };
 static struct mynode N[MAXK];
-static int resident[MAXK], nres, in_table[MAXK];
+static int resident[MAXK], preadd[MAXK], nres;
 static unsigned long c_max = 8, c_init = 1; static int c_auto, c_acct, c_ncpus = 1, c_shift = 4; static char c_mm[8] = "order";
 static long c_count; static long c_sc[8][2]; static int have_counters;
 
@@ -216,12 +228,11 @@ static NS void final_check(void)
 	if (!size || (size & (size - 1)) || size > c_max) vrt_fail("ORACLE final size %lu is not a power of two within [1, %lu]", size, c_max);
 	struct cds_lfht_node *n = ht->bucket_at(ht, 0);
 	unsigned char seen[64] = { 0 };
-	for (;;) {
-		struct cds_lfht_node *nx = n->next;
-		if ((unsigned long) nx & REMOVED_FLAG) { if (!((unsigned long) nx & BUCKET_FLAG)) vrt_fail("ORACLE removed node still linked at quiescence"); }
+	for (;;) {		/* flags in X->next describe X itself */
 		if (++steps > 4096) vrt_fail("ORACLE list does not end");
-		n = clear_flag(nx);
+		n = clear_flag(n->next);
 		if (!n) break;
+		if ((unsigned long) n->next & REMOVED_FLAG) vrt_fail("ORACLE logically removed node still linked at quiescence");
 		if ((unsigned long) n->next & BUCKET_FLAG) {
 			unsigned long idx = bit_reverse_ulong(n->reverse_hash);
 			if (idx < 64) seen[idx]++;
@@ -247,7 +258,8 @@ int main(int argc, char **argv)
 	while (fgets(line, sizeof line, f)) {
 		char a[32]; long x; int c;
 		if (!strncmp(line, "cfg ", 4)) { sscanf(line, "cfg %lu %lu %d %d %d %d %7s", &c_max, &c_init, &c_auto, &c_acct, &c_ncpus, &c_shift, c_mm); continue; }
-		if (!strncmp(line, "pre", 3)) { char *s = line + 3; int k, nch; while (sscanf(s, "%d%n", &k, &nch) == 1) { resident[k] = 1; nres++; s += nch; } continue; }
+		if (!strncmp(line, "prex", 4)) { char *s = line + 4; int k, nch; while (sscanf(s, "%d%n", &k, &nch) == 1) { preadd[k] = 1; s += nch; } continue; }
+		if (!strncmp(line, "pre", 3)) { char *s = line + 3; int k, nch; while (sscanf(s, "%d%n", &k, &nch) == 1) { preadd[k] = 1; resident[k] = 1; nres++; s += nch; } continue; }
 		if (!strncmp(line, "counters ", 9)) { char *s = line + 9; int nch, i = 0; long v; have_counters = 1;
 			if (sscanf(s, "%ld%n", &c_count, &nch) == 1) { s += nch; while (sscanf(s, "%ld%n", &v, &nch) == 1 && i < 16) { c_sc[i / 2][i % 2] = v; i++; s += nch; } } continue; }
 		if (sscanf(line, "thread %15s %d", a, &c) == 2) { cur = &P[np++]; snprintf(cur->name, sizeof cur->name, "%s", a); cur->cpu = c; continue; }
@@ -271,7 +283,7 @@ int main(int argc, char **argv)
 	ht = _cds_lfht_new_with_alloc(c_init, 1, c_max, (c_auto ? CDS_LFHT_AUTO_RESIZE : 0) | (c_acct ? CDS_LFHT_ACCOUNTING : 0), &rec_mm, &drv_flavor, &rec_alloc, NULL);
 	in_new = 0;
 	if (!ht) { fprintf(stderr, "cds_lfht_new failed\n"); return 2; }
-	for (int k = 0; k < MAXK; k++) if (resident[k]) {		/* sequential setup (hooks are inert outside model threads) */
+	for (int k = 0; k < MAXK; k++) if (preadd[k]) {		/* sequential setup (hooks are inert outside model threads) */
 		N[k].key = k; cds_lfht_node_init(&N[k].node);
 		cds_lfht_add(ht, hash_of(k), &N[k].node);
 	}
